@@ -73,3 +73,50 @@ chk('C07', 'fault_enumeration',
     'not-started transfers, cleanup oracles.',
     'A cancel racing the final step may yield success iff the effect is complete.', 'cancel-point enumeration with outcome and cleanup oracles',
     '4 C07', 'world,director,watchdog,yieldinj,runner')
+
+chk('C08', 'exploration',
+    'Recording subscribers and the fake S3 share one event counter; after runs covering every transfer type x success / each fault '
+    'position / each cancel position and entry point, cancel-before-start and cancels steered into the double-announce windows, the '
+    'merged log is checked for on_queued/on_done exactly-once, ordering against requests, cleanups and on_progress, raising on_done '
+    'isolation and HeadObject suppression.',
+    'Interleavings are steered (line windows, yields) not enumerated.', 'offline trace checker over merged callback / S3 log',
+    '4 C08', 'world,director,yieldinj,runner')
+chk('C09', 'exploration',
+    'Running-sum monitor inside the recording subscriber over uploads/downloads/copies with forced body rewinds at every partial '
+    'consumption point, http signing reads, both checksum modes, stream faults with short reads, bodies around the 256 KiB '
+    'aggregation threshold.',
+    'Negative deliveries are not demanded (aggregator nets them); legacy callbacks out of scope.', 'online running-sum monitor',
+    '4 C09', 'world,director,runner')
+chk('C10', 'exploration',
+    'Offline sweep over begin/end events of fake-S3 calls, destination writes and a counting executor for 2-4 mixed transfers under '
+    'asymmetric small limits, with quiescence-driven gates so the maxima are actually reached (evidence reports bound_reached per stage).',
+    'Counts are lower bounds of the real quantities, so alarms are sound; schedules steered, not enumerated.',
+    'interval-overlap monitor over the event log', '4 C10', 'world,director,watchdog,runner')
+chk('C11', 'exploration',
+    'Byte-level buffer accounting for stream uploads, part look-ahead for non-seekable downloads and IO-queue occupancy, under small '
+    'limits with gates making the lowest part the slowest; thorough adds real 5 MiB parts with a tracemalloc peak.',
+    'Measured quantities are lower bounds; evaluated on the fault-free prefix.', 'buffer/look-ahead monitors over the event log',
+    '4 C11', 'world,director,runner')
+chk('C12', 'exploration',
+    'Real semaphores vs a reference model over the complete reachable (model,real) state graph up to the length bound (exhaustive), '
+    'blocking acquirers as real threads against every release order under yield injection (quiescence = lost wake-up verdict), and a '
+    'behavioural capacity probe after end-to-end runs with faults/cancels.',
+    'Double release of a valid token is outside the statement; probe reaches executors through manager attributes.',
+    'reference-model differential + quiescence + capacity probe', '4 C12', 'model,watchdog,yieldinj,world,runner')
+chk('C16', 'exploration',
+    'All delivery histories the download loop can produce up to the bound (exhaustive), random longer ones, and histories pushed by '
+    'one thread per part through the real non-seekable output manager and IO executor into a recording sink.',
+    'Attempts deliver identical bytes for identical positions.', 'exhaustive history enumeration against a set-of-positions reference',
+    '4 C16', 'model,yieldinj,runner')
+chk('C17', 'exploration',
+    'Real coordinator/future vs a reference state machine over the complete reachable state graph to the length bound (exhaustive), '
+    '2-3 thread splits checked for linearizability against the model under yield injection, an Eraser-style lockset monitor, and the '
+    'same assertions inside real transfers.',
+    'Non-done to non-done transitions are not demanded to be rejected.', 'reference-model differential + linearizability + lockset',
+    '4 C17', 'model,yieldinj,world,runner')
+chk('C18', 'exploration',
+    'Each mix of 2-4 transfers is run twice (baseline and with a subset failing/cancelled); shutdown is issued while transfers run; '
+    'event numbers after the return marker (checked after quiescence), surviving stage threads, bystander outcomes/bytes vs baseline, '
+    'a fresh transfer and the capacity probe are checked.',
+    'Schedules sampled; fault positions sampled per victim.', 'barrier trace check + differential isolation runs', '4 C18',
+    'world,director,watchdog,runner')
